@@ -517,9 +517,44 @@ func checkC16(c *Ctx, r *Report) {
 	}()
 	r.Rule("C16-R2", "each value assigned to the returned URL's Path that derives from the inbound request path and is joined under the endpoint's base path is sanitised (path.Clean(\"/\"+·) applied, or the join is control-dependent on the negative of a dot-segment test)", 1)
 	ep := bt.Params[1]
+	// a single-exit builder returns a merge of alternatives (`target = &u … target = base.ResolveReference(…)` …
+	// `return target`): each alternative is examined under the facts of the edge it arrives on, and what is stored
+	// through the merged pointer afterwards (the query copy) counts for all of them
+	type builderAlt struct {
+		ret   *ssa.Return
+		u     ssa.Value
+		facts []condFact
+		phis  []*ssa.Phi
+		n     int
+	}
+	var alts []builderAlt
 	for _, ret := range returnsOf(bt) {
-		u := retResult(ret, 0)
+		var expand func(v ssa.Value, facts []condFact, phis []*ssa.Phi, d int)
+		nAlt := 0
+		expand = func(v ssa.Value, facts []condFact, phis []*ssa.Phi, d int) {
+			ph, ok := v.(*ssa.Phi)
+			if !ok || d == 0 {
+				nAlt++
+				alts = append(alts, builderAlt{ret, v, facts, phis, nAlt})
+				return
+			}
+			for i, e := range ph.Edges {
+				if i >= len(ph.Block().Preds) {
+					continue
+				}
+				pred := ph.Block().Preds[i]
+				f2 := append(append([]condFact{}, condFacts(pred)...), edgeFacts(pred, ph.Block())...)
+				expand(e, f2, append(append([]*ssa.Phi{}, phis...), ph), d-1)
+			}
+		}
+		expand(retResult(ret, 0), condFacts(ret.Block()), nil, 4)
+	}
+	for _, alt := range alts {
+		ret, u, retFacts := alt.ret, alt.u, alt.facts
 		key := fmt.Sprintf("%s:return#%s", fname(bt), retKey(c, bt, ret))
+		if len(alt.phis) > 0 {
+			key += fmt.Sprintf("/alt%d", alt.n)
+		}
 		// the URL may be put together by a small construction helper (`newTargetURL(base, path, query)`): analyse the
 		// helper's own copy-and-assign, with its parameters standing for this call's arguments
 		sub := func(v ssa.Value) ssa.Value { return v }
@@ -582,8 +617,15 @@ func checkC16(c *Ctx, r *Report) {
 		authorityStore := ""
 		rawQueryOK := false
 		var pathVals []ssa.Value
+		var allRefs []ssa.Instruction
 		if refs := u.Referrers(); refs != nil {
-			for _, ref := range *refs {
+			allRefs = append(allRefs, *refs...)
+		}
+		for _, ph := range alt.phis {
+			allRefs = append(allRefs, *ph.Referrers()...)
+		}
+		{
+			for _, ref := range allRefs {
 				fa, ok := ref.(*ssa.FieldAddr)
 				if !ok {
 					continue
@@ -645,7 +687,7 @@ func checkC16(c *Ctx, r *Report) {
 		}
 		// R10: on the preserve_path return every alternative is a join under the endpoint's base path
 		preserve := false
-		for _, cf := range normFacts(condFacts(ret.Block())) {
+		for _, cf := range normFacts(retFacts) {
 			if cf.True && mentionsField(cf.Cond, pkgDomain, "Endpoint", "PreservePath", 2) {
 				preserve = true
 			}
